@@ -93,6 +93,11 @@ def path_specs(strlen):
         for cn in D.NAMES + D.NAMES_UNI + ['CIM_Foo']:
             for kn in ['K', 'k_1', 'Ünï', 'Name', 'Straße', 'ǅx']:
                 yield ['ipath', cn, [[kn, v]], 'a', 'h']
+        # names whose lower() and casefold() differ, in every component that is compared by lower()
+        for cn, ns in (('ACME_Straße', 'a'), ('Foo', 'a/Straße'), ('ǅx', 'root/ǅ'), ('Straße', 'Straße/ß')):
+            yield ['ipath', cn, [['k', v]], ns, None]
+            yield ['ipath', 'Foo', [['r', ['ipath', cn, [['k', v]], ns, None]]], 'a', 'h']
+            yield ['cpath', cn, ns, None]
     # (3) two and three keys (order, case)
     for v1, v2 in itertools.product(REDUCED, repeat=2):
         yield ['ipath', 'Foo', [['k1', v1], ['K2', v2]], 'a', None]
